@@ -75,6 +75,8 @@ var vc15Succ = []string{
 	"add_key(x, 1)\nadd_key(y, \n",
 	// 6 calls another script twice (nested pooled tasks)
 	"a2 = \"outer\"\nuse(\"lib.p\")\nadd_key(outer_a2, a2)\nfor x in [1, 2] {\n use(\"lib.p\")\n}\nadd_key(k_leak)\n",
+	// 7 collection literals modified in place (a literal's value must be built afresh on every run)
+	"l = [1, 2, 3]\nl[0] = l[0] + 10\nm = {\"k\": 1}\nm[\"k\"] = m[\"k\"] + 5\nm[\"n\"] = l[0]\nfor i = 0; i < 2; i += 1 {\n t = [0]\n t[0] = t[0] + 1\n add_key(inner, t[0])\n}\nadd_key(first, l[0])\nadd_key(mk, m[\"k\"])\nadd_key(mlen, len(m))\n",
 }
 
 // vc15Point: the input point; `a` is any int64, `f` any non-NaN float64.
